@@ -129,6 +129,10 @@ type c14In struct {
 	ColTot  bool       `json:"col_totals,omitempty"`
 	Batches [][]sample `json:"batches,omitempty"` // WriteTable after every batch
 
+	// before every WriteTable, what cmd/spark.go does: Trim the aggregator to the last CLim columns
+	// (rows whose cells were all in trimmed columns disappear: the table can shrink between frames)
+	TrimCols bool `json:"trim_columns,omitempty"`
+
 	FixMin bool    `json:"fixed_min,omitempty"`
 	FixMax bool    `json:"fixed_max,omitempty"`
 	Steps  []hstep `json:"steps,omitempty"` // kind heatseq
@@ -424,18 +428,13 @@ func runImpl(in c14In) c14Out {
 			r.SetFormatter(formatterOf(in))
 			write = func() { r.WriteTable(agg, sorting.NVNameSorter, sorting.NVNameSorter) }
 		}
-		o := c14Out{}
+		o := c14Out{States: statesOf(in)}
 		for _, b := range in.Batches {
 			for _, s := range b {
 				agg.SampleItem(s.Col, s.Row, s.Inc)
 			}
-			o.States = append(o.States, snapshot(agg))
-		}
-		// the states are a function of the input alone; replay them while rendering
-		agg = aggregation.NewTable("\x00")
-		for _, b := range in.Batches {
-			for _, s := range b {
-				agg.SampleItem(s.Col, s.Row, s.Inc)
+			if in.TrimCols {
+				trimToLast(agg, in.CLim)
 			}
 			write()
 		}
@@ -444,6 +443,23 @@ func runImpl(in c14In) c14Out {
 		return o
 	}
 	panic("unknown kind " + in.Kind)
+}
+
+// cmd/spark.go's per-frame trimming: keep the last n columns (name order)
+func trimToLast(agg *aggregation.TableAggregator, n int) {
+	keep := agg.OrderedColumns(sorting.NVNameSorter)
+	if len(keep) <= n {
+		return
+	}
+	keep = keep[len(keep)-n:]
+	lookup := map[string]struct{}{}
+	for _, k := range keep {
+		lookup[k] = struct{}{}
+	}
+	agg.Trim(func(col, row string, val int64) bool {
+		_, ok := lookup[col]
+		return !ok
+	})
 }
 
 // aggregator states alone (no rendering): needed for the model input even when rendering fails
@@ -464,6 +480,9 @@ func statesOf(in c14In) []aggState {
 	for _, b := range in.Batches {
 		for _, s := range b {
 			agg.SampleItem(s.Col, s.Row, s.Inc)
+		}
+		if in.TrimCols {
+			trimToLast(agg, in.CLim)
 		}
 		sts = append(sts, snapshot(agg))
 	}
@@ -1175,6 +1194,26 @@ func boundaryTags(in c14In, o c14Out) []string {
 			if in.CLim == 0 || in.RLim == 0 {
 				t = append(t, "b:zero-limit")
 			}
+			if len(o.States) >= 2 {
+				t = append(t, "b:several-frames")
+				grew, shrank, ovPrev := false, false, false
+				for i := 1; i < len(o.States); i++ {
+					a, b := o.States[i-1], o.States[i]
+					if len(a.Rows) > in.RLim && len(b.Rows) > len(a.Rows) {
+						grew = true
+					}
+					if len(b.Rows) < len(a.Rows) {
+						shrank = true
+					}
+					_ = ovPrev
+				}
+				if grew {
+					t = append(t, "b:rows-keep-growing-after-overflow")
+				}
+				if shrank {
+					t = append(t, "b:rows-shrink-between-frames")
+				}
+			}
 			if in.Fmt == 2 {
 				t = append(t, "b:format-expression")
 				if st.Min == st.Max && st.Min != 0 {
@@ -1657,6 +1696,62 @@ func genHeatSeq(r *Rng) c14In {
 	return in
 }
 
+// ONE renderer instance over 2-5 frames of a growing table: the limits are smaller than the data
+// from the first frame on, rows (and columns, named like time buckets) keep arriving, and with
+// trim_columns the table also shrinks (rows seen only in old columns disappear)
+func genFrames(r *Rng, kind string) c14In {
+	in := c14In{Kind: kind, Col: r.Bool(), Uni: r.Bool(), Scaler: genScaler(r), RowTot: r.Bool(), ColTot: r.Bool()}
+	setFmt(r, &in)
+	if kind == "data" {
+		in.Scaler = ""
+	}
+	in.RLim = r.Range(1, 3)
+	in.CLim = r.Range(1, 4)
+	in.TrimCols = r.Bool()
+	nf := r.Range(2, 5)
+	nextRow, nextCol := 0, 0
+	var rows []string
+	col := func(i int) string { return fmt.Sprintf("t%02d", i) }
+	newRow := func() string {
+		k := fmt.Sprintf("r%d", nextRow)
+		if r.Chance(1, 4) {
+			k = genKey(r) + fmt.Sprint(nextRow)
+		}
+		nextRow++
+		rows = append(rows, k)
+		return k
+	}
+	for f := 0; f < nf; f++ {
+		var batch []sample
+		add := in.RLim + r.Range(1, 2) // the first frame already overflows
+		if f > 0 {
+			add = r.Range(0, 3)
+			if f == 1 {
+				add = r.Range(1, 4) // and the row count keeps growing after it
+			}
+		}
+		if f == 0 || r.Chance(1, 2) {
+			nextCol++
+		}
+		for i := 0; i < add; i++ {
+			// a new row, seen in the newest column only (it vanishes once that column is trimmed)
+			batch = append(batch, sample{Col: col(nextCol - 1), Row: newRow(), Inc: genValSmall(r)})
+		}
+		for i := r.Range(0, 4); i > 0 && len(rows) > 0; i-- {
+			batch = append(batch, sample{Col: col(r.Intn(nextCol)), Row: Pick(r, rows), Inc: genValSmall(r)})
+		}
+		if batch == nil {
+			batch = []sample{}
+		}
+		in.Batches = append(in.Batches, batch)
+	}
+	return in
+}
+
+func genValSmall(r *Rng) int64 {
+	return int64(Pick(r, []int{1, 1, 2, 3, 7, 10, 50, 100, 1000}))
+}
+
 func genCli(r *Rng) c14In {
 	in := c14In{Kind: "cli", Col: r.Bool(), Uni: r.Bool(), Scaler: Pick(r, []string{"linear", "log2", "log10", "log2", "log10"}), RLim: r.Range(1, 6), CLim: r.Range(1, 8)}
 	in.Batches = [][]sample{genSpread(r, r.Range(1, 5), r.Range(1, 4), true)}
@@ -1803,6 +1898,11 @@ func fixedCases() []c14In {
 		{Kind: "heat", Col: true, Scaler: "linear", RLim: 3, CLim: 3, Batches: [][]sample{{{Col: "", Row: "r", Inc: 1}}}},
 		{Kind: "stack", MaxVal: 15, MaxLen: 50, Vs: []int64{-5, 10, 10}},
 		{Kind: "scale", Scaler: "log10", Mn: math.MaxInt64, Mx: math.MaxInt64, Vs: []int64{math.MaxInt64}},
+		// one Spark over three frames: 3, 5 and 9 rows with a limit of 2 — the note must follow
+		{Kind: "spark", Scaler: "linear", RLim: 2, CLim: 3, Batches: [][]sample{
+			{{Col: "t1", Row: "a", Inc: 1}, {Col: "t1", Row: "b", Inc: 2}, {Col: "t1", Row: "c", Inc: 3}},
+			{{Col: "t2", Row: "d", Inc: 1}, {Col: "t2", Row: "e", Inc: 2}},
+			{{Col: "t3", Row: "f", Inc: 1}, {Col: "t3", Row: "g", Inc: 1}, {Col: "t3", Row: "h", Inc: 1}, {Col: "t3", Row: "i", Inc: 4}}}},
 		// cmd/heatmap.go's order: fixed bounds, UpdateMinMax, then the scale is assigned
 		{Kind: "heatseq", RLim: 4, CLim: 8, FixMin: true, FixMax: true, Steps: []hstep{{Op: "upd", Mn: 1, Mx: 1000}, {Op: "scaler", Scaler: "log10"}, {Op: "fmt", Fmt: 0},
 			{Op: "table", Batch: []sample{{Col: "a", Row: "r", Inc: 9}, {Col: "b", Row: "r", Inc: 10}, {Col: "c", Row: "r", Inc: 99}, {Col: "d", Row: "r", Inc: 100}, {Col: "e", Row: "r", Inc: 500}}}}},
@@ -1853,37 +1953,39 @@ func c14Gen(r *Rng, n int, tier string) []Case {
 	for len(cases) < n {
 		var in c14In
 		switch k := r.Intn(100); {
-		case k < 14:
+		case k < 12:
 			in = genScale(r)
-		case k < 17:
+		case k < 15:
 			in = genKeys(r)
-		case k < 21:
+		case k < 18:
 			in = c14In{Kind: "bucket", N: int64(Pick(r, []int{1, 2, 4, 9, 10, 16, 100})), Us: genUnits(r, r.Range(1, 8))}
-		case k < 25:
+		case k < 21:
 			in = c14In{Kind: "length", N: int64(Pick(r, []int{0, 1, 9, 50, 450, 1000})), Us: genUnits(r, r.Range(1, 8))}
-		case k < 31:
+		case k < 26:
 			in = c14In{Kind: "barw", Uni: r.Bool(), N: int64(Pick(r, []int{0, 1, 2, 10, 50})), Us: genUnits(r, r.Range(1, 8))}
-		case k < 38:
+		case k < 32:
 			in = genStack(r)
-		case k < 41:
+		case k < 34:
 			in = c14In{Kind: "heatc", Col: r.Bool(), Uni: r.Bool(), Us: genUnits(r, r.Range(1, 8))}
-		case k < 43:
+		case k < 36:
 			in = c14In{Kind: "sparkc", Uni: r.Bool(), Us: genUnits(r, r.Range(1, 8))}
-		case k < 55:
+		case k < 45:
 			in = genTable(r)
-		case k < 60:
+		case k < 50:
 			in = genHisto(r)
-		case k < 66:
+		case k < 55:
 			in = genHistoFrames(r)
-		case k < 69:
+		case k < 58:
 			in = genFmtSeq(r)
-		case k < 74:
+		case k < 63:
 			in = genHeatSeq(r)
-		case k < 79:
+		case k < 69:
+			in = genFrames(r, Pick(r, []string{"spark", "spark", "spark", "heat", "data"}))
+		case k < 77:
 			in = genBarG(r)
-		case k < 87:
+		case k < 86:
 			in = genAgg(r, "heat")
-		case k < 94:
+		case k < 92:
 			in = genAgg(r, "spark")
 		default:
 			in = genAgg(r, "data")
@@ -1925,7 +2027,7 @@ func main() {
 	Main(&Prop{
 		Name:   "C14",
 		Header: "From Coq Require Import List NArith ZArith QArith.\nFrom RareV Require Import Model.Render Corr.C14Case.\nImport ListNotations.\nOpen Scope Z_scope.\n",
-		Rule: "fixed boundary cases (the recorded defects; zero limits; all-equal data) followed by seeded random cases over 17 kinds: Scaler.Scale on ascending value lists for (min,max) incl. int64 extremes, degenerate and inverted ranges x {linear, log2, log10}; ScaleKeys; Bucket / LengthVal / BarWrite / HeatWrite / SparkWrite on unit values incl. 0, 1, 1-ulp, dyadic and non-dyadic fractions; BarWriteStacked; TableWriter row/footer histories; HistoWriter, BarGraph (stacked/grouped) call histories; Heatmap, Spark, DataTable.WriteTable after each of 1-3 batches of samples into a TableAggregator (0-8 rows x 0-8 columns, limits 0..n+2), x colour on/off x unicode on/off x formatter {Passthru, humanize, a generated --format expression over {0}/{val} {1}/{min} {2}/{max} and literal text}; histogram frames (UpdateTotal, then the lines top to bottom in key order: maximum last / in the middle / growing between frames) whose FINAL screen is compared; call sequences on ONE compiled --format expression (min = max, max = previous min, repeated frames); tables whose cells are all equal and non-zero; one Heatmap driven in cmd/heatmap.go's call order (FixedMin/FixedMax, UpdateMinMax, THEN Scaler and Formatter assigned, then 1-2 WriteTable) or reused across scalers (same data and range rendered again after Scaler changed), every displayed cell and legend block compared with the block of the scale in force at that render; the built `rare heatmap --scale S --snapshot` run as a process with --min/--max equal to the data's own range against the run with the automatic range (same picture required). Keys: empty, long, multi-byte, with SGR sequences, with unterminated ESC. Values: zero, negative, all-equal, up to 2^50. " +
+		Rule: "fixed boundary cases (the recorded defects; zero limits; all-equal data) followed by seeded random cases over 17 kinds: Scaler.Scale on ascending value lists for (min,max) incl. int64 extremes, degenerate and inverted ranges x {linear, log2, log10}; ScaleKeys; Bucket / LengthVal / BarWrite / HeatWrite / SparkWrite on unit values incl. 0, 1, 1-ulp, dyadic and non-dyadic fractions; BarWriteStacked; TableWriter row/footer histories; HistoWriter, BarGraph (stacked/grouped) call histories; Heatmap, Spark, DataTable.WriteTable after each of 1-3 batches of samples into a TableAggregator (0-8 rows x 0-8 columns, limits 0..n+2), x colour on/off x unicode on/off x formatter {Passthru, humanize, a generated --format expression over {0}/{val} {1}/{min} {2}/{max} and literal text}; histogram frames (UpdateTotal, then the lines top to bottom in key order: maximum last / in the middle / growing between frames) whose FINAL screen is compared; call sequences on ONE compiled --format expression (min = max, max = previous min, repeated frames); tables whose cells are all equal and non-zero; one Heatmap driven in cmd/heatmap.go's call order (FixedMin/FixedMax, UpdateMinMax, THEN Scaler and Formatter assigned, then 1-2 WriteTable) or reused across scalers (same data and range rendered again after Scaler changed), every displayed cell and legend block compared with the block of the scale in force at that render; ONE Spark / Heatmap / DataTable instance over 2-5 frames of a table that overflows the limits from the first frame and keeps growing (and, with cmd/spark.go's per-frame Trim to the last columns, shrinks), final screen compared line by line incl. the '(n more)' note; the built `rare heatmap --scale S --snapshot` run as a process with --min/--max equal to the data's own range against the run with the automatic range (same picture required). Keys: empty, long, multi-byte, with SGR sequences, with unterminated ESC. Values: zero, negative, all-equal, up to 2^50. " +
 			"distinct = distinct JSON input; non-trivial = at least one b:* boundary tag (see distribution).",
 		Gen: c14Gen,
 		Replay: func(d json.RawMessage) (Case, error) {
